@@ -56,3 +56,75 @@ Example C14_nonvacuous :
                 = Done (a', c', Out (Some (RMod 77 CAUSE_OK)) [Cmd MFar true [2; 5] [1; 0; 1; 100; 8; 6; 2152]] [Marker 100 9 4] false)
                 /\ map (fun x => view (s_fars x)) (c_sessions c') = [[Far 2 5 0 true 2 1 100 8 6 2152]].
 Proof. eexists; eexists; split; vm_compute; reflexivity. Qed.
+
+(* ---- 5. under the guard of C03's history theorem (Proofs/ModWorld.v: mod_ok - in particular no FAR id is written
+   twice by one message) the specification simplifies: every flagged Update FAR of an existing FAR yields exactly one
+   marker, computed from the FAR list as STORED BEFORE the message ([static_markers]: no dependence on the order of the
+   updates); a rejected or unknown-session modification emits none *)
+From UPF Require Import Model.World Proofs.WorldProofs Proofs.ModImage Proofs.ModWorld Proofs.ModMarkers.
+Theorem C14_guarded_markers_static : forall burst w ci seid cpf cp cf cq up uf uq rp rf rq a' c' o,
+  let a := w_agent w in let c := get_conn ci (w_conns w) in
+  mod_ok burst w ci (MMod seid cpf cp cf cq up uf uq rp rf rq) = true ->
+  handle_mod burst a c seid cpf cp cf cq up uf uq rp rf rq = Done (a', c', o) ->
+  o_markers o = [] \/
+  exists s0 fs ups,
+    find_session seid (c_sessions c) = Some s0 /\
+    parse_all (fun i => parse_far i seid (g_access (a_cfg a)) (g_core (a_cfg a)) false) cf = Some fs /\
+    parse_all (fun i => parse_far i seid (g_access (a_cfg a)) (g_core (a_cfg a)) true) uf = Some ups /\
+    o_reply o = Some (RMod (new_rseid cpf s0) CAUSE_OK) /\
+    o_markers o = if g_end_marker (a_cfg a) then static_markers ups (view (s_fars s0) ++ fs) else [].
+Proof. exact mod_markers_guarded. Qed.
+Print Assumptions C14_guarded_markers_static.
+
+(* ---- 6. over HISTORIES: after any guarded history (the hypotheses of C03_image_invariant_mod_partial), every end
+   marker emitted by a guarded modification without Create FAR carries source, destination and TEID of a FAR stored
+   for that session and named by a flagged Update FAR of the message - and these are exactly the tunnel parameters
+   farLookup holds under that FAR's key at that moment: the marker goes to the tunnel the datapath was forwarding to *)
+Theorem C14_markers_to_installed_tunnel : forall burst es w w' ci cn seid cpf cp cq up uf uq rp rf rq draws w'' o,
+  (forall x, In x (states burst w es) -> envelope burst x /\ alloc_backed x) ->
+  guarded_hist burst w es = true -> image_ok burst w -> wrun burst w es = Done w' ->
+  mod_ok burst w' ci (MMod seid cpf cp [] cq up uf uq rp rf rq) = true ->
+  wstep burst w' (WMsg ci cn (MMod seid cpf cp [] cq up uf uq rp rf rq) draws) = Done (w'', o) ->
+  forall m, In m (o_markers o) ->
+    exists s0 f u ups,
+      find_session seid (c_sessions (get_conn ci (w_conns w'))) = Some s0 /\ In s0 (all_sessions w') /\
+      parse_all (fun i => parse_far i seid (g_access (a_cfg (w_agent w'))) (g_core (a_cfg (w_agent w'))) true) uf = Some ups /\
+      In u ups /\ a_em u = true /\ a_id f = a_id u /\
+      In f (view (s_fars s0)) /\ m = marker_of f /\ g_end_marker (a_cfg (w_agent w')) = true /\
+      t_get [a_id f; a_fseid f] (t_far (a_tables (w_agent w'))) =
+      Some [a_ttype f; far_action f; a_ttype f; a_tsrc f; a_tdst f; a_teid f; a_tport f].
+Proof. exact markers_to_installed_tunnel. Qed.
+Print Assumptions C14_markers_to_installed_tunnel.
+
+(* non-vacuity: setup, establishment (FAR 2 -> tunnel 100 -> 8, TEID 6), then the handover modification with Update
+   FAR 2 (new tunnel 9 / TEID 7, flag set), an unknown FAR 99 and Update FAR 1 (no flag): all hypotheses hold, one
+   marker is emitted, and it equals the farLookup entry of FAR 2 before the step *)
+Example C14_history_nonvacuous :
+  let burst := fun _ _ _ : N => 0 in
+  let w0 := World (Agent (Cfg 100 200 true) None (Gen 0 []) 0 no_tables) [] in
+  let pdr1 := PdrIE (IOk 1) (IOk 10) (IOk [PSrc (IOk 0); PFteid (IOk (false, 11, Some 100))]) true (IOk 1) true [1; 2] in
+  let pdr2 := PdrIE (IOk 2) (IOk 10) (IOk [PSrc (IOk 1); PUeip (IOk (2, Some 50))]) false (IOk 2) true [1; 2] in
+  let far1 := FarIE (IOk 1) (IOk 2) (IOk [FDst (IOk 1)]) IErr in
+  let far2 := FarIE (IOk 2) (IOk 2) (IOk [FDst (IOk 0); FOhc (IOk (6, Some 8))]) IErr in
+  let qer1 := QerIE (IOk 1) 9 0 0 1000 1000 0 0 in
+  let qer2 := QerIE (IOk 2) 9 0 0 5000 5000 0 0 in
+  let ufar2 := FarIE (IOk 2) (IOk 2) IErr (IOk [FDst (IOk 0); FOhc (IOk (7, Some 9)); FSm (IOk 2)]) in
+  let ufar1 := FarIE (IOk 1) (IOk 2) IErr (IOk [FDst (IOk 1)]) in
+  let ufar99 := FarIE (IOk 99) (IOk 2) IErr (IOk [FDst (IOk 1)]) in
+  let es := [WMsg 0 true (MSetup (Some (IOk 7)) (Some (IOk 1))) [];
+             WMsg 0 true (MEst (Some (IOk 7)) (Some (IOk (77, Some 3))) [pdr1; pdr2] [far1; far2] [qer1; qer2]) [5]] in
+  exists w' w'' o,
+    (forall x, In x (states burst w0 es) -> envelope burst x /\ alloc_backed x) /\
+    guarded_hist burst w0 es = true /\ image_ok burst w0 /\ wrun burst w0 es = Done w' /\
+    mod_ok burst w' 0 (MMod 5 None [] [] [] [] [ufar2; ufar99; ufar1] [] [] [] []) = true /\
+    wstep burst w' (WMsg 0 true (MMod 5 None [] [] [] [] [ufar2; ufar99; ufar1] [] [] [] []) []) = Done (w'', o) /\
+    o_markers o = [Marker 100 8 6] /\
+    t_get [2; 5] (t_far (a_tables (w_agent w'))) = Some [1; 0; 1; 100; 8; 6; 2152] /\
+    t_get [2; 5] (t_far (a_tables (w_agent w''))) = Some [1; 0; 1; 100; 9; 7; 2152].
+Proof.
+  intros burst w0 pdr1 pdr2 far1 far2 qer1 qer2 ufar2 ufar1 ufar99 es.
+  eexists. eexists. eexists.
+  split; [apply states_ok_b; vm_compute; reflexivity|]. split; [vm_compute; reflexivity|]. split; [apply image_empty|].
+  split; [vm_compute; reflexivity|]. split; [vm_compute; reflexivity|]. split; [vm_compute; reflexivity|].
+  split; [vm_compute; reflexivity|]. split; vm_compute; reflexivity.
+Qed.
